@@ -17,6 +17,7 @@ def run(ctx):
         {"scens": wcat.carry_scenarios(), "policies": ("FIFO", "JOBS"), "bound": 1},
         {"scens": wcat.first_handle_scenarios(), "policies": ("FIFO", "LIFO", "JOBS"), "bound": 1},
         {"scens": wcat.rerun_scenarios(), "policies": ("FIFO", "LIFO", "JOBS"), "bound": 1},
+        {"scens": wcat.token_and_dependency_scenarios(), "policies": ("FIFO", "LIFO"), "bound": 1, "demote": True},
         {"scens": wcat.token_again_scenarios(), "policies": ("FIFO", "JOBS"), "bound": 1, "demote": True},
         {"scens": wcat.latejoin_scenarios(failing=True), "policies": ("FIFO", "FIFO+rev"), "bound": 1},
         {"scens": wcat.dag_scenarios(3, rotations=(0,), with_failures=True, all_orders=False), "policies": ("FIFO",), "bound": 1 if not q else 0},
